@@ -5,6 +5,7 @@
 -/
 import Grenad.Model.Meta
 import Grenad.Model.IO
+import Grenad.Proofs.Wave3IO
 
 namespace Grenad.Props.C13
 
@@ -170,3 +171,97 @@ example : ¬ ValidTrailer ((le64 7 ++ [5] ++ le64 3 ++ [2] ++ le32 0x6723D4C4).t
   unfold ValidTrailer last4; decide
 
 end Grenad.Props.C13
+
+/-! ### The writer stopped by a crash (`Grenad.Model.WriterIO`) -/
+
+namespace Grenad.Props.C13
+
+open Grenad Grenad.Meta Grenad.Wave3
+
+section
+variable {cd : Codec} {cfg : WCfg} {es : List Entry} {file : Bytes} {log : List Emitted}
+  {m : Meta}
+
+/-- **C13, crash half.**  Whatever the sink's schedule (partial writes, interruptions, a fault
+    anywhere), the bytes in the sink are a prefix of the file the pure writer returns. -/
+theorem C13_writer_crash (H : WriterHyps cd cfg es) (hrun : W.run cd cfg es = .ok (file, log))
+    (hfile : file.length < 2 ^ 64) (hcount : es.length < 2 ^ 64) (hid : cd.id ≤ 5)
+    (hm : parse file = .ok m) (sch : List IOM.WResp) :
+    ∃ rest, file = (W.runIO cd log m sch).1.data ++ rest := by
+  obtain ⟨rest, h⟩ := C13_crash_prefix (W.writes cd log m) {} sch
+  refine ⟨rest, ?_⟩
+  rw [← writes_flatten_run H hrun hfile hcount hid hm]
+  have h' : ([] : Bytes) ++ (W.writes cd log m).flatten = (W.runIO cd log m sch).1.data ++ rest := h
+  simpa using h'
+
+/-- A writer stopped strictly before the first byte of the trailer (the sink holds a prefix of
+    the block area `log.flatMap blockBytes`): opening what the sink holds succeeds *iff* those
+    bytes themselves end in a valid trailer — nothing of the writer's own trailer is there to be
+    found.  (Instance of `C13_open_iff`.  It is *not* claimed that such a prefix is always
+    rejected: block payloads are arbitrary user bytes and may contain a trailer image; likewise
+    for a cut inside the 22-byte trailer.) -/
+theorem C13_writer_crash_rejected (H : WriterHyps cd cfg es)
+    (hrun : W.run cd cfg es = .ok (file, log)) (hfile : file.length < 2 ^ 64)
+    (hcount : es.length < 2 ^ 64) (hid : cd.id ≤ 5) (hm : parse file = .ok m)
+    (sch : List IOM.WResp)
+    (hbefore : ∃ r, log.flatMap (fun e => W.blockBytes cd e.raw) = (W.runIO cd log m sch).1.data ++ r) :
+    ((∃ m', parse (W.runIO cd log m sch).1.data = .ok m') ↔
+      ValidTrailer (W.runIO cd log m sch).1.data) ∧
+    (∃ n, n < file.length - 22 + 1 ∧ (W.runIO cd log m sch).1.data = file.take n) := by
+  refine ⟨C13_open_iff _, ?_⟩
+  obtain ⟨hmeq, -, hf⟩ := run_trailer H hrun hfile hcount hid hm
+  obtain ⟨r, hr⟩ := hbefore
+  refine ⟨(W.runIO cd log m sch).1.data.length, ?_, ?_⟩
+  · have hl : (encode m).length = 22 := by rw [hmeq]; simp [encode]
+    have := congrArg List.length hr
+    rw [hf]
+    simp only [List.length_append, hl] at this ⊢
+    omega
+  · rw [hf, hr, List.append_assoc, List.take_left]
+
+/-- A crash that leaves fewer than 21 bytes can never be opened (`Err(Io)`, short seek). -/
+theorem C13_writer_crash_short (cd : Codec) (log : List Emitted) (m : Meta)
+    (sch : List IOM.WResp) (h : (W.runIO cd log m sch).1.data.length < 21) :
+    ∀ m', parse (W.runIO cd log m sch).1.data ≠ .ok m' := by
+  intro m' hp
+  have := (C13_open_iff _).mp ⟨m', hp⟩
+  unfold ValidTrailer at this
+  omega
+
+/-- A run stopped by a fault never leaves the complete file: the crashed image differs from
+    `file` (it is a *strict* prefix), so a reader that opens it is not reading the intended
+    file with its intended trailer position. -/
+theorem C13_writer_crash_strict (H : WriterHyps cd cfg es)
+    (hrun : W.run cd cfg es = .ok (file, log)) (hfile : file.length < 2 ^ 64)
+    (hcount : es.length < 2 ^ 64) (hid : cd.id ≤ 5) (hm : parse file = .ok m)
+    (sch : List IOM.WResp) (t : Nat) (hfault : (W.runIO cd log m sch).2.2 = some t) :
+    (W.runIO cd log m sch).1.data.length < file.length := by
+  obtain ⟨_, rest, -, -, hne, hd, -⟩ := (runIO_fault cd log m sch).1 t hfault
+  rw [writes_flatten_run H hrun hfile hcount hid hm] at hd
+  have := congrArg List.length hd
+  have : 0 < rest.length := List.length_pos_iff.mpr hne
+  simp only [List.length_append] at *
+  omega
+
+end
+
+/-- the instance of `Grenad.Proofs.Wave3IO` crashed after 34 bytes (inside the second block): a
+    prefix of the file, stopped before the trailer, and not openable -/
+example : ∃ rest, wxFile =
+    (W.runIO Codec.none wxLog wxMeta (List.replicate 34 (.accept 1) ++ [.fail 9])).1.data ++ rest :=
+  C13_writer_crash wxHyps wxRun wxFile_lt (by decide) (by decide) wxParse _
+
+example : ¬ ValidTrailer
+    (W.runIO Codec.none wxLog wxMeta (List.replicate 34 (.accept 1) ++ [.fail 9])).1.data := by
+  unfold ValidTrailer last4
+  set_option maxRecDepth 100000 in decide
+
+end Grenad.Props.C13
+
+section Audit
+open Grenad.Props.C13
+#print axioms C13_writer_crash
+#print axioms C13_writer_crash_rejected
+#print axioms C13_writer_crash_short
+#print axioms C13_writer_crash_strict
+end Audit
